@@ -54,6 +54,7 @@ CORPORA = {
     "utf8": dict(model="MC_Utf8", quick=dict(MaxLen=3), thorough=dict(MaxLen=3), profiles=DEV_REL, place="end"),
     "session": dict(kind="mutate", gen="session_cases", gen_all_files=True, base=["builder", "fields"],
                     quick=dict(count=300), thorough=dict(count=6000), profiles=DEV_REL, place="end"),
+    "findbytes": dict(model="MC_FindBytes", quick=dict(SmallLen=7), thorough=dict(SmallLen=8), profiles=DEV_REL, place="both"),
     "load": dict(model="MC_Load", quick=dict(MaxT=72), thorough=dict(MaxT=160), profiles=DEV_REL, place="both"),
     "walk": dict(model="MC_Walk", quick=dict(MaxT=32), thorough=dict(MaxT=40), profiles=DEV_REL, place="both"),
 }
@@ -61,7 +62,7 @@ CORPORA = {
 # property -> list of corpus names; nontrivial rule used for evidence
 ALL_CFGS = ["dev+b", "rel+b", "dev-b", "rel-b"]
 PARSE_CORPORA = ["adv", "big", "load", "walk", "fields", "getters", "dst", "sized", "fb", "rsdp", "efi", "elf", "str",
-                 "hload", "hwalk", "hfields", "hgetters", "hdst", "find", "cks", "refslice8", "typeids"]
+                 "hload", "hwalk", "hfields", "hgetters", "hdst", "find", "findbytes", "cks", "refslice8", "typeids"]
 
 CHECKS = {
     "C08": dict(technique="TLC-generated cases replayed by four builds (dev/release x builder feature on/off); TLC (spec/Trace8.tla) compares every "
@@ -111,7 +112,7 @@ CHECKS = {
     "C11": dict(thorough_extra=["hmut"], corpora=["hfields", "hgetters", "hwalk"],
                 rule="every header-tag kind conformant x 2 fills x 2 positions x 2 architectures, every accessor; all tag sequences "
                      "<= MaxTags over 4 kinds; all lazily chosen walks"),
-    "C13": dict(corpora=["find"],
+    "C13": dict(corpora=["find", "findbytes"],
                 rule="structural buffers: all (buffer length, magic position or none, stored header length) combinations around the "
                      "8192 window, a later second magic, misaligned buffers"),
     "C18": dict(thorough_extra=["mut"], corpora=["efi"],
